@@ -19,25 +19,49 @@ theorem createTable_rejected_noop (s : Pkg) (name : List Char) (cols : List Colu
 `_Validation` columns, ranges holding the reserved integer, unstorable columns -/
 theorem createError_covers (s : Pkg) (name : List Char) (cols : List Column)
     (h : createError s name cols = none) :
-    Table.isValidName name = true ∧ cols ≠ [] ∧ cols.length ≤ Gen.maxTableColumns ∧
+    Table.isValidName name = true ∧ isPoolName name = false ∧
+    cols ≠ [] ∧ cols.length ≤ Gen.maxTableColumns ∧
     (∀ c ∈ cols, isStorable c = true) ∧ s.findTable name = none ∧
     rowsValidFor (Catalog.columnsTable false) (catalogRowsColumns name cols) = true ∧
     rowsValidFor (Catalog.tablesTable false) [[.str name]] = true ∧
     rowsValidFor (Catalog.validationTable false) (catalogRowsValidation name cols) = true := by
   unfold createError at h
-  split at h; · cases h
-  split at h; · cases h
-  split at h; · cases h
-  split at h; · cases h
-  split at h; · cases h
-  split at h; · cases h
-  split at h; · cases h
-  split at h; · cases h
-  split at h; · cases h
-  split at h; · cases h
-  split at h; · cases h
-  rename_i h1 h2 h3 _ _ _ h7 h8 h9 h10 h11
-  refine ⟨by simpa using h1, by simpa [List.isEmpty_iff] using h2, by omega, ?_, by simpa using h7,
+  by_cases h1 : (!Table.isValidName name) = true
+  · rw [if_pos h1] at h; cases h
+  rw [if_neg h1] at h
+  by_cases hres : isPoolName name = true
+  · rw [if_pos hres] at h; cases h
+  rw [if_neg hres] at h
+  by_cases h2 : cols.isEmpty = true
+  · rw [if_pos h2] at h; cases h
+  rw [if_neg h2] at h
+  by_cases h3 : cols.length > Gen.maxTableColumns
+  · rw [if_pos h3] at h; cases h
+  rw [if_neg h3] at h
+  by_cases h4 : (!cols.any (·.isPrimaryKey)) = true
+  · rw [if_pos h4] at h; cases h
+  rw [if_neg h4] at h
+  by_cases h5 : cols.any (fun c => !Category.validate .identifier c.name) = true
+  · rw [if_pos h5] at h; cases h
+  rw [if_neg h5] at h
+  by_cases h6 : hasDuplicateNames (cols.map (·.name)) = true
+  · rw [if_pos h6] at h; cases h
+  rw [if_neg h6] at h
+  by_cases h7 : (s.findTable name).isSome = true
+  · rw [if_pos h7] at h; cases h
+  rw [if_neg h7] at h
+  by_cases h8 : cols.any (fun c => !isStorable c) = true
+  · rw [if_pos h8] at h; cases h
+  rw [if_neg h8] at h
+  by_cases h9 : (!rowsValidFor (Catalog.columnsTable false) (catalogRowsColumns name cols)) = true
+  · rw [if_pos h9] at h; cases h
+  rw [if_neg h9] at h
+  by_cases h10 : (!rowsValidFor (Catalog.tablesTable false) [[.str name]]) = true
+  · rw [if_pos h10] at h; cases h
+  rw [if_neg h10] at h
+  by_cases h11 : (!rowsValidFor (Catalog.validationTable false) (catalogRowsValidation name cols)) = true
+  · rw [if_pos h11] at h; cases h
+  refine ⟨by simpa using h1, by simpa using hres, by simpa [List.isEmpty_iff] using h2, by omega, ?_, by simpa using h7,
     by simpa using h9, by simpa using h10, by simpa using h11⟩
   intro c hc
   simp only [List.any_eq_true, not_exists, not_and, Bool.not_eq_true', Bool.not_eq_false] at h8
